@@ -28,7 +28,13 @@ EXTENDS Naturals, Sequences, FiniteSets, TLC, Json
 \* evolution_first / evolution_last: the current model is incompatible with the first / the last listed version only
 Locations == {"none", "manifest", "outdir_missing", "import_manifest", "main", "import1", "import2", "version", "version_import",
               "evolution", "duplicate_label", "bad_override", "version2", "version2_import", "evolution_first", "evolution_last"}
-ErrKinds  == {"semantic", "syntax"}                 \* an ill-typed model vs. a file that does not parse (only for model files)
+\* an ill-typed model vs. a file that does not parse (only for model files).  "semantic" is an unknown type (found by resolveTypes);
+\* PassKinds has one more kind of semantic error per validation pass of dsl.Validate, because each pass walks the closure on its
+\* own: a pass that looks at the top-level namespace only lets its kind of error through exactly when it sits in an import
+PassKinds == {"type_name", "generic_def", "field_name", "step_name", "dimensions", "stream", "symbol", "union_tag", "cycle",
+              "generic_arity", "map_key", "union_cases", "enum", "computed", "unused_param"}
+ErrKinds  == {"semantic", "syntax"} \cup PassKinds
+ModelLocs == {"main", "import1", "import2", "version", "version_import"}
 Targets   == {"cpp", "python", "json", "matlab"}
 TargetOrder == <<"cpp", "python", "json", "matlab">>
 OutStates == {"absent", "populated", "inside_pkg"}
@@ -53,6 +59,7 @@ NextLabel(done) == LET rest == SelectSeq(Labels, LAMBDA x : x \notin done) IN IF
 Configs == { c \in [loc : Locations, kind : ErrKinds, targets : (SUBSET Targets) \ {{}}, out : OutStates, cmd : Commands, uses : BOOLEAN, nver : {1, 2}] :
                /\ (c.loc \in {"none", "manifest", "outdir_missing", "import_manifest", "evolution", "duplicate_label", "bad_override",
                               "evolution_first", "evolution_last"} => c.kind = "semantic")
+               /\ (c.kind \in PassKinds => c.loc \in ModelLocs /\ c.uses /\ c.nver = 1 /\ c.out \in {"absent", "populated"})
                /\ (c.loc \in {"version2", "version2_import", "evolution_first", "evolution_last"} => c.nver = 2)
                /\ (c.loc = "evolution" => c.nver = 1)
                /\ (c.nver = 2 => c.loc \in {"none", "version", "version_import", "version2", "version2_import", "evolution_first", "evolution_last"}
